@@ -51,7 +51,8 @@ NodeTypes == {"N0", "N1", "N2", "N3", "N4", "N5"}
 DirTypes  == {"DL0", "DL1", "DL2"}       \* Directory<Leaf<i>>
 RDirTypes == {"RL0", "RL1"}              \* RecursiveDirectory<Leaf<i>>
 StorTypes == {"S0"}                      \* a plain Storable (never loadable)
-Types == LeafTypes \cup NodeTypes \cup DirTypes \cup RDirTypes \cup StorTypes
+ArcTypes  == {"AL0", "AL2"}              \* Arc<Leaf<i>>: loads like Leaf<i>, reloadable iff Leaf<i> is
+Types == LeafTypes \cup NodeTypes \cup DirTypes \cup RDirTypes \cup StorTypes \cup ArcTypes
 
 TypeInfo == [ty \in Types |->
   CASE ty = "L0" -> [kind |-> "leaf", hot |-> TRUE,  exts |-> <<"x">>,           dflt |-> FALSE]
@@ -69,7 +70,9 @@ TypeInfo == [ty \in Types |->
     [] ty = "DL2" -> [kind |-> "dir",  hot |-> TRUE, exts |-> <<>>, dflt |-> FALSE, of |-> "L2"]
     [] ty = "RL0" -> [kind |-> "rdir", hot |-> TRUE, exts |-> <<>>, dflt |-> FALSE, of |-> "L0", dirty |-> "DL0"]
     [] ty = "RL1" -> [kind |-> "rdir", hot |-> TRUE, exts |-> <<>>, dflt |-> FALSE, of |-> "L1", dirty |-> "DL1"]
-    [] ty = "S0"  -> [kind |-> "stor", hot |-> FALSE, exts |-> <<>>, dflt |-> FALSE]]
+    [] ty = "S0"  -> [kind |-> "stor", hot |-> FALSE, exts |-> <<>>, dflt |-> FALSE]
+    [] ty = "AL0" -> [kind |-> "arc", hot |-> TRUE,  exts |-> <<>>, dflt |-> FALSE, of |-> "L0"]
+    [] ty = "AL2" -> [kind |-> "arc", hot |-> FALSE, exts |-> <<>>, dflt |-> FALSE, of |-> "L2"]]
 
 SeqToSet(s) == {s[i] : i \in 1..Len(s)}
 
@@ -114,6 +117,7 @@ ONone     == [o |-> "none"]
 OBool(b)  == [o |-> "bool", b |-> b]
 OBytes(c) == [o |-> "bytes", c |-> c]
 OEnts(s)  == [o |-> "ents", s |-> s]
+OCaught   == [o |-> "caught"]
 
 -----------------------------------------------------------------------------
 (* Script instructions *)
@@ -126,6 +130,8 @@ IContains(ty, id)       == [op |-> "contains", ty |-> ty, id |-> id]
 IGoi(ty, id, n)         == [op |-> "goi", ty |-> ty, id |-> id, n |-> n]
 IIndirect(id, ext, ty, req) == [op |-> "indirect", id |-> id, ext |-> ext, ty |-> ty, req |-> req]
 INoRec(body)            == [op |-> "norec", body |-> body]
+IReadReq(id, ext)       == [op |-> "readreq", id |-> id, ext |-> ext]    \* the script fails if the read fails
+ITry(body)              == [op |-> "try", body |-> body]                 \* catch_unwind around the body
 IFail                   == [op |-> "fail"]
 IPanic                  == [op |-> "panic"]
 
@@ -265,6 +271,7 @@ LoadKey(Ein, R, k, mode, scripts) ==
 Body(E, R, k, scripts) ==
     LET info == TypeInfo[k.ty] IN
     CASE info.kind = "leaf" -> LeafExts(E, R, k, 1, ENoDefault)
+      [] info.kind = "arc"  -> LeafExts(E, R, Key(info.of, k.id), 1, ENoDefault)   \* Arc<T>::load = T::load, under the Arc's own key
       [] info.kind = "node" -> RunScript(E, R, k, scripts[k], 1, <<>>, scripts)
       [] info.kind = "dir" ->
             LET rd == DoReadDir(E, R, k.id) IN
@@ -300,6 +307,17 @@ Instr(E, R, k, ins, scripts) ==
     CASE ins.op = "read" ->
             LET rd == DoRead(E, R, ins.id, ins.ext) IN
             Step(rd.E, rd.R, IF rd.st.s = "ok" THEN OBytes(rd.st.c) ELSE OErr, None, FALSE)
+      [] ins.op = "readreq" ->
+            LET rd == DoRead(E, R, ins.id, ins.ext) IN
+            IF rd.st.s = "ok" THEN Step(rd.E, rd.R, OBytes(rd.st.c), None, FALSE)
+            ELSE Step(rd.E, rd.R, OErr, EScript, FALSE)
+      [] ins.op = "try" ->
+            \* a panic inside the body is caught by the load itself; the recorder in force is the same
+            \* object before and after (nested recorders were restored while unwinding)
+            LET b == RunScript(E, R, k, ins.body, 1, <<>>, scripts) IN
+            IF b.ok THEN Step(b.E, b.R, OVal(b.val), None, FALSE)
+            ELSE IF b.panic THEN Step(b.E, b.R, OCaught, None, FALSE)
+            ELSE Step(b.E, b.R, OErr, b.err, FALSE)
       [] ins.op = "readdir" ->
             LET rd == DoReadDir(E, R, ins.id) IN
             Step(rd.E, rd.R, IF rd.st.s = "ok" THEN OEnts(rd.st.ents) ELSE OErr, None, FALSE)
